@@ -968,6 +968,9 @@ pub struct RunPlan {
     pub front_h2: bool,
     pub back_h2: bool,
     pub back_variant: u8,
+    /// HTTP/2 clients: open stream 0 first, the others when its response is complete
+    #[serde(default)]
+    pub second_wave: bool,
     pub streams: Vec<StreamPlan>,
 }
 
